@@ -208,6 +208,8 @@ pub struct ExecCfg {
     pub yield_stats: bool,
     pub yield_counter: bool,
     pub max_steps: u32,
+    /// `Some(ms)`: the library's clock readings are answered by a virtual clock advancing `ms` per reading
+    pub clock_step_ms: Option<u64>,
 }
 
 #[derive(Clone, Debug, Default)]
@@ -365,6 +367,14 @@ fn supply_bound(prog: &Program) -> (u128, usize) {
 }
 
 pub fn execute(prog: &Program, prefix: &[u8], cfg: &ExecCfg) -> Exec {
+    // the clock seam: from the construction of the level to the last observation
+    struct ClockGuard(Option<crate::clock::VClock>);
+    impl Drop for ClockGuard {
+        fn drop(&mut self) {
+            crate::clock::restore(self.0);
+        }
+    }
+    let _clock = cfg.clock_step_ms.map(|ms| ClockGuard(crate::clock::set(Some(ms as i128 * 1_000_000))));
     sched::begin_execution();
     // shared objects
     let level = PriceLevel::new(LEVEL_PRICE);
@@ -1488,6 +1498,8 @@ pub fn replay_doc(prog: &Program, fd: &Found, prop: &str, tier: &str, cfg: &Exec
         "preemptions": fd.preemptions,
         "yield_stats": cfg.yield_stats,
         "yield_counter": cfg.yield_counter,
+        "max_steps": cfg.max_steps,
+        "clock_step_ms": cfg.clock_step_ms,
     })
 }
 
